@@ -106,8 +106,9 @@ class MAUPITILinear(nn.Linear, MAUPITIModule):
         # Initialize the zero_point to `self.add_bias`
         with torch.no_grad():
             if not self.last_layer:
+                # the offset of the (signed) input depends on the INPUT precision
                 self._zero_point = (self.add_bias + (self.clip_inf * 2**self.shift) -
-                                    self.clip_inf * self.scale *
+                                    self.clip_inf_in * self.scale *
                                     torch.sum(self.weight, dim=1
                                               ).view(1, self.out_features))
             else:
@@ -170,6 +171,11 @@ class MAUPITILinear(nn.Linear, MAUPITIModule):
         else:
             return torch.tensor(-2 ** (self.out_quantizer.precision - 1),
                                 device=self.device)
+
+    @property
+    def clip_inf_in(self):
+        # Value representing zero in the (signed) input activations
+        return torch.tensor(-2 ** (self.in_quantizer.precision - 1), device=self.device)
 
     @property
     def clip_sup(self):
